@@ -1,4 +1,5 @@
 import PcfgVerif.Properties.LoaderCore
+import PcfgVerif.Properties.SkipBruteOrder
 /-!
 # C14 — skip_brute and all_lower are pure restrictions of the default run
 
@@ -44,5 +45,21 @@ theorem C14_all_lower_masks (one : P) (n : Nat) :
     (allLowerMasks one n).length = 1 ∧
     ∀ g ∈ allLowerMasks one n, g.values = [List.replicate n 0x4c] ∧ g.prob = one := by
   simp [allLowerMasks]
+
+/-- the stream: dividing every base-structure probability by the same positive constant `1 − P(M)`
+divides every pre-terminal probability (`_find_prob`) by it … -/
+theorem C14_rescaled_prob (bp total : Rat) (cols : List (List Rat)) (idx : List Nat) :
+    probFold SkipBrute.O (bp / total) cols idx = probFold SkipBrute.O bp cols idx / total :=
+  SkipBrute.probFold_rescaled bp total cols idx
+
+/-- … and therefore leaves every comparison between two pre-terminals — all the priority queue and the
+next function ever look at — unchanged: with C01/C02 (order, each once, for every tie-breaking) the
+`--skip_brute` run emits the non-Markov pre-terminals of the default run in the same order (exact
+arithmetic; over doubles the division is monotone, ties may be broken differently) -/
+theorem C14_order_preserved (total : Rat) (ht : 0 < total) (bp1 bp2 : Rat)
+    (cols1 cols2 : List (List Rat)) (idx1 idx2 : List Nat) :
+    SkipBrute.O.le (probFold SkipBrute.O (bp1 / total) cols1 idx1) (probFold SkipBrute.O (bp2 / total) cols2 idx2) =
+    SkipBrute.O.le (probFold SkipBrute.O bp1 cols1 idx1) (probFold SkipBrute.O bp2 cols2 idx2) :=
+  SkipBrute.skip_brute_le total ht bp1 bp2 cols1 cols2 idx1 idx2
 
 end Pcfg.C14
